@@ -25,6 +25,7 @@ import XsdataModel.Proofs.AttrsField
 import XsdataModel.Proofs.Derive
 import XsdataModel.Proofs.Subst
 import XsdataModel.Proofs.SubstLift
+import XsdataModel.Proofs.EnumDefault
 
 namespace Props.C02
 open Py Xs.Gen
@@ -657,5 +658,35 @@ example : ∃ w, Matches (substP exMem exSP) w ∧ 2 ≤ w.count ['m'] :=
     { name := ['m'], index := 0, min := 0, max := maxsize,
       path := [⟨.s, 1, 0, maxsize⟩, ⟨.c, 1000, 1, 1⟩], choice := some 1000, sequence := some 1 }
     (by rw [exSP_occurs]; decide) (by decide)
+
+/-! ## enumeration-typed fields: the default is the member with the declared *value*
+
+an attribute or element whose type is an `xs:enumeration` restriction, with `default` / `fixed`: `SanitizeAttributesDefaultValue.is_valid_enum_type` turns the string default into a reference
+to member *names* (which `RenameDuplicateAttributes` may have changed: `on`, `ON` → `on`, `ON_1`),
+`Filters.field_default_enum` renders the reference (model `Gen/EnumDefault`, lemmas
+`Proofs/EnumDefault`). -/
+
+/-- **The default of an enumeration-typed field is the member whose value was declared**: for every
+enumeration with pairwise distinct values and (after renaming) pairwise distinct, non-empty member
+names, and every member `m`, a field declared with the default / fixed value `m.value` gets exactly
+`m` as its default — whatever the other members are called, in particular when another member's
+name, or python constant, spells `m.value`. -/
+theorem enum_default_faithful (members : List EnumMember)
+    (hv : (members.map (·.value)).Nodup) (hn : (members.map (·.name)).Nodup)
+    (m : EnumMember) (hm : m ∈ members) (hne : m.name ≠ []) :
+    enumDefaultValues members m.value = some [some m.value] :=
+  enum_default_core members hv hn m hm hne
+
+/-- the hypotheses are satisfiable: `(on | ON | off)` with default `ON`; the members are called
+`on`, `ON_1`, `off` after renaming -/
+example : enumDefaultValues
+    [⟨"on".toList, "on".toList⟩, ⟨"ON".toList, "ON_1".toList⟩, ⟨"off".toList, "off".toList⟩]
+    "ON".toList = some [some "ON".toList] :=
+  enum_default_faithful _ (by decide) (by decide) ⟨"ON".toList, "ON_1".toList⟩ (by decide) (by decide)
+
+/-- a token-list default refers to one member per token -/
+example : enumDefaultValues
+    [⟨"x-1".toList, "x-1".toList⟩, ⟨"x1".toList, "x1_1".toList⟩] "x1 x-1".toList =
+    some [some "x1".toList, some "x-1".toList] := by decide
 
 end Props.C02
